@@ -20,7 +20,7 @@ def _cli(cmd, text, timeout_s):
             return 'timeout'
 
 
-def discharge(ctx, hyps, goal, timeout_ms=20000):
+def discharge(ctx, hyps, goal, timeout_ms=20000, stages='all'):
     """stage 1: z3 (Python API) with E-matching only -- fast, and fast to give up;
     stage 2: the same query as SMT-LIB text to cvc5, then to /usr/bin/z3 (4.8.12), then z3's default strategy (MBQI).
     An obligation counts as discharged when any back end answers unsat.  Returns (status, seconds, detail, backend)."""
@@ -29,6 +29,12 @@ def discharge(ctx, hyps, goal, timeout_ms=20000):
     t = time.time(); r = s.check()
     if r == unsat: return 'discharged', time.time() - t, '', 'z3-ematching'
     reason1 = s.reason_unknown() if r == unknown else 'sat'
+    if stages == 'first':
+        return 'failed', time.time() - t, 'z3-ematching: ' + reason1, ''
+    if stages == 'cheap':
+        r2 = _cli(['/usr/bin/cvc5', '--tlimit=8000'], '(set-logic ALL)\n' + s.to_smt2(), 8)
+        if r2 == 'unsat': return 'discharged', time.time() - t, '', 'cvc5'
+        return 'failed', time.time() - t, 'z3-ematching: %s; cvc5(8s): %s' % (reason1, r2), ''
     text = '(set-logic ALL)\n' + s.to_smt2()
     tl = max(timeout_ms // 1000, 20)
     r2 = _cli(['/usr/bin/cvc5', '--tlimit=%d' % (tl * 1000)], text, tl)
@@ -155,18 +161,25 @@ def run_function(repo, cls, name, kind, params, spec_module='specs.ir', opts=Non
                         goals.append(('%s/%s/exit=%s/%s' % (prop, fi.qual, ekind, cname), g))
                 pending = []
                 for oname, g in goals:
-                    stt, dt, why, be = discharge(ctx, s.pc, g, opts.get('timeout_ms', 20000))
+                    stt, dt, why, be = discharge(ctx, s.pc, g, opts.get('timeout_ms', 20000), stages='first')
                     if stt == 'discharged': record(oname, stt, dt, why, be)
-                    else: pending.append((oname, stt, dt, why, be))
+                    else: pending.append((oname, g))
                 if pending:
-                    # before anything is reported: is this path feasible at all?  (feasibility checks during execution are cheap
-                    # and may have let an infeasible path through)
-                    from z3 import BoolVal
-                    fst, fdt, fwhy, fbe = discharge(ctx, s.pc, BoolVal(False), opts.get('timeout_ms', 20000))
-                    for oname, stt, dt, why, be in pending:
-                        if fst == 'discharged':
-                            record(oname, 'discharged', dt + fdt, 'path infeasible', fbe)
-                        else:
+                    still = []
+                    for oname, g in pending:
+                        stt, dt, why, be = discharge(ctx, s.pc, g, opts.get('timeout_ms', 20000), stages='cheap')
+                        if stt == 'discharged': record(oname, stt, dt, why, be)
+                        else: still.append((oname, g))
+                    if still:
+                        # before anything is reported: is this path feasible at all?  (feasibility checks during execution are
+                        # cheap and may have let an infeasible path through)
+                        from z3 import BoolVal
+                        fst, fdt, fwhy, fbe = discharge(ctx, s.pc, BoolVal(False), opts.get('timeout_ms', 20000))
+                        for oname, g in still:
+                            if fst == 'discharged':
+                                record(oname, 'discharged', fdt, 'path infeasible', fbe); fdt = 0
+                                continue
+                            stt, dt, why, be = discharge(ctx, s.pc, g, opts.get('timeout_ms', 20000))
                             if stt == 'failed' and s.shaky: stt = 'undecided'; why = 'path feasibility undecided; ' + why
                             record(oname, stt, dt, why, be)
         if not agg:
@@ -192,25 +205,50 @@ def _worker(job):
         return {'function': '%s.%s' % (cls, name), 'results': [], 'error': traceback.format_exc()[-1500:]}
 
 
-def run_all(repo, functions, opts=None, workers=16):
-    import multiprocessing as mp
-    jobs = [(repo, c, n, k, p, opts or {}) for (c, n, k, p) in functions]
-    ctxmp = mp.get_context('fork')
-    with ctxmp.Pool(min(workers, len(jobs))) as pool:
-        return pool.map(_worker, jobs, chunksize=1)
+def run_all(repo, functions, opts=None, workers=16, per_function_timeout=300, progress=None):
+    """one subprocess per function (a stuck solver or executor cannot hold up the others); results as JSON"""
+    import subprocess, json, concurrent.futures as cf
+    here = os.path.dirname(os.path.abspath(__file__))
+    def one(f):
+        c, n, k, p = f
+        env = dict(os.environ); env['VERIF_REPO'] = repo
+        t0 = time.time()
+        try:
+            pr = subprocess.run([sys.executable, '-B', os.path.join(here, 'verify.py'), '--json', c, n, k, json.dumps(opts or {})],
+                                capture_output=True, text=True, timeout=per_function_timeout, env=env)
+            out = pr.stdout.split('@@JSON@@')[-1]
+            r = json.loads(out)
+        except subprocess.TimeoutExpired:
+            fq = '%s.%s%s' % (c, n, {'setter': '=', 'deleter': ' del'}.get(k, ''))
+            r = {'function': fq, 'results': [], 'timeout': True, 'wall_s': round(time.time() - t0, 1),
+                 'error': 'verification of this function exceeded %ds' % per_function_timeout}
+        except Exception as e:
+            r = {'function': '%s.%s' % (c, n), 'results': [], 'error': 'worker failed: %s %s' % (e, (pr.stderr if 'pr' in dir() else '')[-800:])}
+        if progress: progress(r)
+        return r
+    with cf.ThreadPoolExecutor(workers) as ex:
+        return list(ex.map(one, functions))
+
+
+def _print(r):
+    bad = [x for x in r['results'] if x['status'] != 'discharged']
+    print('%-36s paths=%-3s exits=%s obligations=%d undischarged=%d wall=%ss %s%s' % (
+        r['function'], r.get('paths'), r.get('exits'), len(r['results']), len(bad), r.get('wall_s'),
+        ('DEGRADED ' + r['degraded']) if r.get('degraded') else '', ('ERROR ' + r['error']) if r.get('error') else ''), flush=True)
+    for x in bad[:12]: print('     ', x['status'], x['name'], x['detail'][:100], flush=True)
 
 
 if __name__ == '__main__':
     import json
     sys.setrecursionlimit(20000)
-    sys.path.insert(0, os.path.dirname(os.path.dirname(os.path.abspath(__file__))))
     from specs.ir_functions import FUNCTIONS
+    if len(sys.argv) > 1 and sys.argv[1] == '--json':
+        c, n, k = sys.argv[2:5]
+        opts = json.loads(sys.argv[5]) if len(sys.argv) > 5 else {}
+        params = [f for f in FUNCTIONS if f[0] == c and f[1] == n and f[2] == k][0][3]
+        r = _worker((os.environ.get('VERIF_REPO', '/repo'), c, n, k, params, opts))
+        sys.stdout.write('@@JSON@@' + json.dumps(r))
+        sys.exit(0)
     sel = sys.argv[1:]
     fns = [f for f in FUNCTIONS if not sel or ('%s.%s' % (f[0], f[1])) in sel or f[0] in sel]
-    res = run_all(os.environ.get('VERIF_REPO', '/repo'), fns)
-    for r in res:
-        bad = [x for x in r['results'] if x['status'] != 'discharged']
-        print('%-36s paths=%-3s exits=%s obligations=%d undischarged=%d wall=%ss %s%s' % (
-            r['function'], r.get('paths'), r.get('exits'), len(r['results']), len(bad), r.get('wall_s'),
-            ('DEGRADED ' + r['degraded']) if r.get('degraded') else '', ('ERROR ' + r['error']) if r.get('error') else ''))
-        for x in bad[:12]: print('     ', x['status'], x['name'], x['detail'][:60])
+    run_all(os.environ.get('VERIF_REPO', '/repo'), fns, progress=_print, per_function_timeout=int(os.environ.get('PYVC_FN_TIMEOUT', '300')))
